@@ -16,9 +16,10 @@ PROPS_MODULE = "BiotiteModel.Props.C05"
 EXT_MODULES = ["biotite.structure.io.pdbx.encoding"]
 GEN_FILES = ["BiotiteModel/Gen/C05.lean"]
 LEVEL_TEXT = ("Lean theorems, for arrays of every length: run-length, delta (with two's-complement wrap in every ≤32-bit dtype), "
-              "integer packing (1/2 bytes, signed/unsigned), byte-array, string-array and _safe_cast round trips; every chain "
+              "integer packing (1/2 bytes, signed/unsigned), byte-array, string-array and _safe_cast round trips; _to_smallest_integer_type fits; every chain "
               "compress() can choose for an integer column round-trips (C05_compress_candidates_sound); fixed point is within half a "
-              "step when the scaled value fits int32 and interval quantisation within one step, over exact rationals. Partial: IEEE "
+              "step when the scaled value fits int32, interval quantisation within one step, and compress() on a float column within the relative "
+              "tolerance whenever _get_decimal_places returns a decimal count (C05_compress_float_tolerance), over exact rationals. Partial: IEEE "
               "rounding of float products/divisions, msgpack and the size-based choice inside compress() are not theorems — they are "
               "exercised by the correspondence (exactly representable inputs) and by the round-trip/tolerance oracle on the real code.")
 LEVEL_NOTE = ("Trusted: Lean kernel + {propext, Classical.choice, Quot.sound}; harness/props/c05.py (generator, adapter, TypeCode table "
@@ -87,7 +88,7 @@ def _values(rng, t, n):
 
 
 def cases(rng, tier):
-    for gen in (int_cases, ext_cases, float_cases, smallest_cases, column_cases, interval32_cases):
+    for gen in (int_cases, ext_cases, float_cases, smallest_cases, column_cases, interval32_cases, decimals_cases):
         for c in gen(rng, tier):
             rt = c.get("rt")
             if rt and rt.get("enc") in ("rle", "delta", "pack", "bytes", "compress_int", "compress_float") and rng.random() < 0.35:
@@ -231,6 +232,28 @@ def ext_cases(rng, tier):
             if c[2] != "0" or rng.random() < 0.5:
                 xs = [x if abs(x) < 100000 else x % 1000 for x in xs]     # keep packed streams (and model recursion) short
             yield {"kind": "chain", "ops": [f"chain {c} {t} {_ints(xs)}"], "rt": {"enc": "compress_int", "dtype": t, "data": xs}}
+
+
+def decimals_cases(rng, tier):
+    """_get_decimal_places op by op: dyadic values (exact in float64), dyadic tolerances; d0 = -order of magnitude computed exactly."""
+    from fractions import Fraction
+    for _ in range(120 if tier == "quick" else 2500):
+        n = rng.choice([1, 2, 3, 5])
+        style = rng.choice(["small", "coords", "big", "tiny", "mixed"])
+        xs = []
+        for _ in range(n):
+            k = rng.randint(1, 2 ** 12) * rng.choice([-1, 1])
+            j = {"small": rng.randint(0, 8), "coords": rng.randint(2, 6), "big": -rng.randint(0, 24), "tiny": rng.randint(8, 30),
+                 "mixed": rng.randint(-20, 20)}[style]
+            xs.append(Fraction(k) / (Fraction(2) ** j) if j >= 0 else Fraction(k) * (2 ** -j))
+        tol = Fraction(1, 2 ** rng.choice([7, 10, 20, 30]))
+        mx = max(abs(x) for x in xs)
+        order = 0
+        while Fraction(10) ** (order + 1) <= mx:
+            order += 1
+        while Fraction(10) ** order > mx:
+            order -= 1
+        yield {"kind": "decimals", "ops": [f"decimals {-order} {_q(tol)} {','.join(_q(x) for x in xs)}"]}
 
 
 def smallest_cases(rng, tier):
@@ -401,6 +424,16 @@ def run_impl(case):
         elif w[0] == "bytes_dec":
             t, bs = w[1], _parse(w[2])
             out.append(_fmt(lambda: "ok " + _ints(E.ByteArrayEncoding(type=np.dtype(NP[t])).decode(bytes(bs)))))
+        elif w[0] == "decimals":
+            from fractions import Fraction
+            from biotite.structure.io.pdbx.compress import _get_decimal_places
+            tol = float(Fraction(w[2]))
+            xs = [float(Fraction(x)) for x in w[3].split(",")]
+
+            def fdp():
+                with np.errstate(all="ignore"):
+                    return f"ok {_get_decimal_places(np.array(xs, dtype=np.float64), tol)}"
+            out.append(_fmt(fdp))
         elif w[0] == "smallest":
             from biotite.structure.io.pdbx.compress import _to_smallest_integer_type
             xs = _parse(w[1])
@@ -728,7 +761,7 @@ def _file_roundtrip(rt):
 
 
 def nontrivial(case, impl_out):
-    if case["kind"] in ("file", "column", "interval32"):
+    if case["kind"] in ("file", "column", "interval32", "decimals"):
         return True
     data = (case.get("rt") or {}).get("data")
     if data is not None and len(set(data)) >= 2:
